@@ -399,6 +399,24 @@ def handle (op : String) (fs : List (String × String)) : String :=
       | .ok b => "ok:" ++ toHex b
       | .err e => "err:" ++ e
       | .panic s => "panic:" ++ s
+  else if op == "font.filert" then
+    -- diagnostic: the byte-level model reads back what it wrote as `nfFile F` (instance of the
+    -- statement of C01_file_roundtrip)
+    match parseFileFont fs with
+    | none => "bad-case"
+    | some (F, rr) =>
+      match FontFile.writeFile { env := env, riseRun := fun _ => rr } F with
+      | .ok b =>
+        match FontFile.readFile (fun _ _ => 0) b with
+        | .ok r => if r == FontFile.nfFile F then "same" else
+            "differ:" ++ ",".intercalate (diffKeys (metaFields r.font) (metaFields (FontFile.nfFile F).font)) ++
+            (if r.glyphs == F.glyphs then "" else ",glyphs") ++
+            (if r.maxpTtf == some F.maxpTtf then "" else ",maxp") ++
+            (if r.sideTables == (FontFile.nfFile F).sideTables then "" else ",sidetables")
+        | .err e => "read-err:" ++ e
+        | .panic s => "read-panic:" ++ s
+      | .err e => "err:" ++ e
+      | .panic s => "panic:" ++ s
   else if op == "font.nf" then
     -- the property's first clause: Read(Write(F)) is the explicit normal form of F
     match parseMeta fs with
